@@ -3,7 +3,7 @@ import c03_gen  # noqa: F401  (registers the float atoms used by replays)
 import inst_check
 
 ASSUMPTIONS = [
-    "class grammar: K1 leaf (optionally keyed/frozen), K2 node with int/str/Optional, nested spec, List/Dict/Set of scalars, List/Dict of (keyed) spec classes, K3 spec subclass; KeyedList/KeyedSet attributes, Literal/float/tuple annotations and validated types are outside the instance model (their conformance relation is C15's)",
+    "class grammar: K1 leaf (optionally keyed/frozen), K2 node with int/str/Optional, nested spec, List/Dict/Set of scalars, List/Dict of (keyed) spec classes, K3 spec subclass; KeyedList/KeyedSet attributes, Literal/float/tuple annotations and validated types are outside the instance model (their conformance relation is C15's); KeyedList/KeyedSet attributes and bounded() types are probed on the implementation with reference predicates written in the harness (c03_keyed_probe, c03_probe)",
     "argument objects are fresh (args_fresh): every mutable argument is built for the call it is passed to and is not reachable from another instance",
     "user callbacks only allocate; they may return ill-typed values",
     "conformance is evaluated in Coq with the model's check_type on the implementation's canonical object graph (bit 8 of Corr/InstCorr.check_case)",
